@@ -3,8 +3,13 @@
 use super::*;
 use crate::verif_support::*;
 
-static mut FMT_SAW_POS: u64 = 0;
-static mut FMT_CALLS: u32 = 0;
+struct FmtRec {
+    marker: u64,
+    saw_pos: u64,
+    calls: u32,
+}
+// one static with a unique marker (see support.rs)
+static mut FM: FmtRec = FmtRec { marker: 0x5EED_0000_0000_0004, saw_pos: 0, calls: 0 };
 
 // @harness id=full_report_error props=C07,C02,C04 kind=full tier=quick fns=its::util::report_error stubs=alloc::fmt::format,flume::Sender::send
 // report_error sends exactly one Error message (formatting stubbed: text not covered) and never panics
